@@ -11,7 +11,7 @@ From Coq Require Import ZArith QArith Qround Qabs List Bool Permutation.
 From RV Require Import Base.PyNum Formats.Timeline.
 From RV Require Map.RateFile.
 From RV Require Formats.Qua Formats.QuaSpec Formats.Osu Formats.OsuSpec Formats.SM Formats.SMSpec Formats.SMWriteDom
-  Formats.BMS Formats.BMSSpec Timing.Snap.
+  Formats.BMS Formats.BMSSpec Timing.Snap Timing.TimingMap.
 Import ListNotations.
 Open Scope Q_scope.
 
@@ -172,6 +172,15 @@ Definition survives (tbl : list Q) (dflt : BMSText.text) (r : Q) (c : wchart) (l
                      /\ time_rt tbl l (Qred (Qred (ho_off h / r) + Qred (ho_len h / r))) (sl_time s + sl_len s)
                      /\ sl_sample s = sample_of (w_samples c) (sample_id c dflt (ho_sample h))) (w_holds c) (d_holds d)
   /\ Forall2 (fun b tb => fst tb == bo_off b / r /\ snd tb == bo_bpm b * r) (w_bpms c) (d_tempo d)
+  /\ length (d_hits d) = length (w_hits c) /\ length (d_holds d) = length (w_holds c).
+(* the same for tempo rows in ANY order: the tempo changes of the file against the rows in time order *)
+Definition survives_any (tbl : list Q) (dflt : BMSText.text) (r : Q) (c : wchart) (l : list bcs) (d : denotation) : Prop :=
+  msr (fun h s => sh_col s = h_col h /\ time_rt tbl l (Qred (h_off h / r)) (sh_time s)
+                  /\ sh_sample s = sample_of (w_samples c) (sample_id c dflt (h_sample h))) (w_hits c) (d_hits d)
+  /\ msr (fun h s => sl_col s = ho_col h /\ time_rt tbl l (Qred (ho_off h / r)) (sl_time s)
+                     /\ time_rt tbl l (Qred (Qred (ho_off h / r) + Qred (ho_len h / r))) (sl_time s + sl_len s)
+                     /\ sl_sample s = sample_of (w_samples c) (sample_id c dflt (ho_sample h))) (w_holds c) (d_holds d)
+  /\ Forall2 (fun b tb => fst tb == bo_off b / r /\ snd tb == bo_bpm b * r) (TimingMap.sort_by TimingMap.bco_lt (w_bpms c)) (d_tempo d)
   /\ length (d_hits d) = length (w_hits c) /\ length (d_holds d) = length (w_holds c).
 End BMSRate.
 
